@@ -509,6 +509,8 @@ type SynAckSpec struct {
 }
 
 type Listener struct {
+	// NotYet: the run that will dial this listener has not started (a later run of a chain): nothing to wait for
+	NotYet bool
 	L        *net.TCPListener
 	Addr     netip.AddrPort
 	Spec     SynAckSpec
@@ -542,7 +544,7 @@ func (n *Net) pollListeners() {
 			exp = 1
 		}
 		// Expect < 0: a listener nobody is supposed to dial (only counted at shutdown)
-		if exp > 0 && len(l.Accepted) < exp {
+		if exp > 0 && len(l.Accepted) < exp && !l.NotYet {
 			// the dial has returned before the run starts reading, so the connection is already in the accept queue;
 			// under heavy machine load the accept may still need a moment of real time
 			l.patience = 50 * time.Millisecond
